@@ -162,6 +162,40 @@ PROPS['C07'] = dict(
     not_covered=['InnerBucket::page_node overlay rule (N3)', 'that a cursor visits every entry of a modified tree in order (R2-full); the "emptied non-last leaf hides later keys" behaviour named in the property text is therefore outside this check', 'bucket listing and point lookups through InnerBucket::get'],
 )
 
+PROPS['C05'] = dict(
+    level='proof',
+    units=['freelist', 'commit', 'open', 'pagenode'],
+    kani_quick=['layout'],
+    kani_thorough=['codec'],
+    explanation='Page accounting, allocator and serialisation side (the tree-shape half is outside): the allocator never hands out a page that is pending, already allocated in this transaction or a header page, '
+                'and hands out the lowest free run or a fresh page (F1, T1: pages_wf / below_hwm invariants); freeing appends exactly the run to pending[tx], with exact multiset accounting '
+                '(F3, T2: pend_ms); release moves exactly the pending lists below the bound (F2); what is persisted is free + pending, sorted, with exact length (F4) in a freshly allocated free-list page '
+                'after the old run was freed, and the header publishes the allocator\'s high-water mark and that page (W1 w6, w8); every page written lies below the high-water mark inside the file (w1, w5); '
+                'a new file starts with two valid headers, an empty free-list page and an empty leaf (O1); node entries stay strictly ascending under insert/delete (N1); element headers and payloads '
+                'round-trip through the real pointer code inside the page run (K2, BOUNDED, thorough tier).',
+    level_text='Unbounded proofs of the allocator / free-list / commit-publication obligations on the real code; bounded Kani harnesses (labelled, not counted) for the raw-pointer codec.',
+    level_note='NOT decided: that the B+tree layer frees each page at most once (the nested-bucket double free named in the property text lives in InnerBucket::delete_bucket), key order across pages, separator bounds, '
+               'reachability-exactly-once, and agreement of TxInner::check (a worklist graph traversal, not under contract). L3 composition on paper; fl_nodup is an assumption.',
+    assumptions=[A_TOOLS, A_ARITH, A_TREE, A_FILE, A_PAGEMUT, A_ELEMS, A_SEQ],
+    not_covered=['double free / duplicated pages by the tree layer (rebalance, merge, nested bucket delete)', 'key order across pages and separator bounds', 'TxInner::check agreement'],
+)
+PROPS['C01'] = dict(
+    level='other',
+    units=['pagenode', 'cursor', 'range', 'guards'],
+    kani_quick=['layout'],
+    kani_thorough=['codec'],
+    explanation='Leaf operations against the mathematical ordered map, for all sizes: Node::insert_data is map insert on a strictly ascending entry sequence (replace on equal key, insert at the sorted position otherwise, '
+                'nothing lost or duplicated), Node::delete removes exactly the indexed entry (N1); PageNode::index is the binary search with the documented slot-before rule on both representations (N2); '
+                'cursor and range iteration are panic-free / within bounds (R1, R2); a bucket header survives its 16-byte encoding and every element header has the pinned layout (K1, complete); '
+                'serialising a node and reading it back through the real pointer code yields the same entries (K2, BOUNDED, thorough tier); the documented-misuse panic on a deleted bucket is the only '
+                'precondition of the bucket mutators (G1).',
+    level_text='Proved leaf-level operations plus bounded codec; the property\'s quantifier over whole histories is NOT decided.',
+    level_note='put_leaf / bucket_getter (insertion counter), merge_nodes, spill, root collapse and nested-bucket propagation live in InnerBucket (Rc<RefCell>, HashMap<Bytes,..>, mmap pointers) and are out of reach of both verifiers; '
+               'the shape-dependent commit panic named in the property text cannot be found by this check.',
+    assumptions=[A_TOOLS, A_ARITH, A_TREEIF, A_ELEMS, 'RefCell stand-in', 'byte-string order is a strict total order'],
+    not_covered=['every history-level clause of the statement: commit/reopen equivalence with a reference nested map, per-bucket counters, nested buckets', 'rebalance / spill / merge / root collapse'],
+)
+
 PENDING = 'not claimed yet in this build session: deciding units are not built (see DESIGN section 10)'
 NOT_APPLICABLE = {
     'C04': 'quantifies over thread schedules; Kani has no threads, Verus would need the code rewritten onto its permission types (a model) — DESIGN section 6',
@@ -169,5 +203,5 @@ NOT_APPLICABLE = {
     'C13': 'quantifies over schedules of OS processes and flock semantics; a sequential contract cannot decide mutual exclusion — DESIGN section 6',
     'C14': 'quantifies over client programs and is decided by rustc borrow/Send checking of each program, not by contracts on jammdb bodies — DESIGN section 6',
 }
-for _p in ['C01', 'C05']:
+for _p in []:
     NOT_APPLICABLE.setdefault(_p, PENDING)
